@@ -84,6 +84,12 @@ pub struct Sc {
     /// instead of a re-parsed copy of its as_bytes()
     #[serde(default)]
     pub direct: bool,
+    /// two more live Distinfo values used in turn with the one under test: an
+    /// unrelated record (the same names in another order, plus the names that
+    /// the one under test does not record), and a clone into which shorter
+    /// tails were inserted afterwards.  Each must answer from its own record.
+    #[serde(default)]
+    pub twin: bool,
 }
 
 pub struct C12;
@@ -771,6 +777,7 @@ impl Property for C12 {
             faults,
             lookups,
             direct,
+            twin: rng.chance(1, 3),
         }
     }
 
@@ -941,9 +948,95 @@ impl Property for C12 {
                 distinfo = distinfo.clone();
                 ctx.probe("verified-on-a-clone");
             }
+            // the other two live records of this round (see Sc::twin)
+            let mut other_recorded: Vec<String> = Vec::new();
+            let mut tail_recorded: Vec<String> = recorded.clone();
+            let (other, with_tails) = if sc.twin {
+                ctx.fault("interleaved_objects");
+                other_recorded.push("zz-other-decoy.tgz".to_string());
+                for f in sc.files.iter().rev() {
+                    other_recorded.push(f.name.clone());
+                }
+                for l in &sc.lookups {
+                    // names the record under test may not know at all
+                    if !l.is_empty() && !l.ends_with('/') && !other_recorded.contains(l) && !has_raw(l) && !l.starts_with('/') && !l.contains("..") {
+                        other_recorded.push(l.clone());
+                    }
+                }
+                let mut text: Vec<u8> = b"$NetBSD$\n\n".to_vec();
+                for n in &other_recorded {
+                    text.extend_from_slice(b"SHA1 (");
+                    text.extend_from_slice(&raw(n));
+                    text.extend_from_slice(b") = 0000000000000000000000000000000000000000\n");
+                }
+                let other = Distinfo::from_bytes(&text);
+                // a clone that then learns shorter tails of the DIST_SUBDIR names
+                let mut c = distinfo.clone();
+                for f in &sc.files {
+                    if let Some(pos) = f.name.rfind('/') {
+                        let tail = f.name[pos + 1..].to_string();
+                        if !tail.is_empty() && !tail_recorded.contains(&tail) && model_is_patch(&tail) == model_is_patch(&f.name) {
+                            c.insert(Entry::new(os(&tail), stored(&sd, &tail), vec![Checksum::new(ALGS[3], "0".repeat(HEX_LEN[3]))], None));
+                            tail_recorded.push(tail);
+                        }
+                    }
+                }
+                (Some(other), Some(c))
+            } else {
+                (None, None)
+            };
+            // one lookup on each of the other two records, judged against their own models
+            let twin_lookup = |path: &std::ffi::OsStr, model_path: &str, ctx: &mut Ctx| -> Outcome {
+                if let Some(o) = &other {
+                    let want = model_find(&other_recorded, model_path);
+                    match (want, o.find_entry(path)) {
+                        (Some(w), Ok(e)) => ensure!(
+                            e.filename == Path::new(&os(w)),
+                            "twin-record-answered-wrongly",
+                            "an unrelated Distinfo resolved {:?} to {:?}; its own shortest recorded tail is {:?}",
+                            model_path,
+                            e.filename,
+                            w
+                        ),
+                        (None, Err(DistinfoError::NotFound)) => {}
+                        (w, g) => fail!(
+                            "twin-record-answered-wrongly",
+                            "an unrelated Distinfo answered {:?} for {:?}; its own record says {:?}",
+                            g.map(|e| e.filename.clone()).map_err(|e| e.to_string()),
+                            model_path,
+                            w
+                        ),
+                    }
+                    ctx.probe("twin-record-consulted");
+                }
+                if let Some(c) = &with_tails {
+                    let want = model_find(&tail_recorded, model_path);
+                    match (want, c.find_entry(path)) {
+                        (Some(w), Ok(e)) => ensure!(
+                            e.filename == Path::new(&os(w)),
+                            "twin-record-answered-wrongly",
+                            "a clone that was given shorter tails afterwards resolved {:?} to {:?}; its shortest recorded tail is {:?}",
+                            model_path,
+                            e.filename,
+                            w
+                        ),
+                        (None, Err(DistinfoError::NotFound)) => {}
+                        (w, g) => fail!(
+                            "twin-record-answered-wrongly",
+                            "a clone that was given shorter tails afterwards answered {:?} for {:?}; its record says {:?}",
+                            g.map(|e| e.filename.clone()).map_err(|e| e.to_string()),
+                            model_path,
+                            w
+                        ),
+                    }
+                }
+                Ok(())
+            };
             for (i, fsp) in sc.files.iter().enumerate() {
                 let p = stored(&sd, &fsp.name);
                 let ps = stored_model(&sd, &fsp.name);
+                // the other records are asked first, then the one under test
+                twin_lookup(p.as_os_str(), &ps, ctx)?;
                 let resolved = model_find(&recorded, &ps);
                 let ri = match resolved {
                     Some(r) => recorded.iter().position(|x| x == r).unwrap(),
@@ -1268,6 +1361,9 @@ impl Property for C12 {
             for l in &sc.lookups {
                 let want = model_find(&recorded, l);
                 let lo = os(l);
+                if !has_raw(l) {
+                    twin_lookup(&lo, l, ctx)?;
+                }
                 let got = distinfo.find_entry(&lo);
                 match (want, got) {
                     (Some(w), Ok(e)) => {
